@@ -143,13 +143,30 @@ def main(run):
         cmodel = build_model(cinfo, dtype="double", platform="dll")
         pmodels = [build_model(pi, dtype="double", platform="dll") for pi in part_infos]
         oriented = any(p.type == "orientation" for p in cinfo.parameters.call_parameters)
-        for rep in range(nrep):
-            dim = "2d" if (oriented and rep % 3 == 2) else "1d"
+        has_mag = sum(1 for p in cinfo.parameters.call_parameters if p.name.endswith("_M0")) >= 1
+        def has_python(m):
+            return type(m).__name__ == "PyModel" or any(has_python(x) for x in getattr(m, "parts", []) or [])
+        no_mag = any(has_python(pm) for pm in pmodels)   # pure-Python components refuse magnetic evaluation (NotImplementedError)
+        if no_mag:
+            has_mag = False
+        for rep in range(nrep + (1 if has_mag else 0)):
+            allmag = has_mag and rep == nrep       # every magnetic SLD of every component switched on, 2-D
+            dim = "2d" if (allmag or (oriented and rep % 3 == 2)) else "1d"
             if dim == "1d":
                 q = [np.array([0.01, 0.05, 0.1, rng.uniform(0.001, 0.3)])]
             else:
                 q = [np.array([0.03, -0.05, rng.uniform(-0.2, 0.2)]), np.array([0.04, 0.05, rng.uniform(-0.2, 0.2)])]
             pars = gen_pars(cinfo, rng, dim)
+            if no_mag:
+                pars = {k: v for k, v in pars.items() if not (k.endswith("_M0") or k.endswith("_mtheta") or k.endswith("_mphi") or k.startswith("up_"))}
+            if allmag:
+                for p in cinfo.parameters.call_parameters:
+                    if p.name.endswith("_M0"):
+                        pars[p.name] = rng.uniform(0.5, 6)
+                        pars[p.name[:-3] + "_mtheta"] = rng.uniform(-80, 80)
+                        pars[p.name[:-3] + "_mphi"] = rng.uniform(-170, 170)
+                pars.update(up_frac_i=rng.choice([0.0, 0.3, 1.0]), up_frac_f=rng.choice([0.0, 0.6, 1.0]),
+                            up_theta=rng.uniform(0, 180), up_phi=rng.uniform(0, 180))
             # make some component exactly zero on the grid: a line with a root at q=0.05
             zero = False
             for (sn, m), pe in zip(maps, part_exprs):
@@ -189,7 +206,12 @@ def main(run):
             sc = abs(pars["scale"]) * (np.abs(pa).sum(axis=0) if op == "+" else np.abs(pa).prod(axis=0)) + abs(pars["background"])
             desc = dict(expr=expr, dim=dim, pars=pars, q=[list(map(float, v)) for v in q],
                         parts=parts_out, part_scales=pscales, mixture=list(map(float, mix)), formula=list(map(float, oracle)))
-            bad = [j for j in range(len(mix)) if not (abs(mix[j] - oracle[j]) <= 1e-9 * sc[j] + 1e-300)]
+            bad = [j for j in range(len(mix)) if not (abs(mix[j] - oracle[j]) <= 1e-9 * sc[j] + 1e-300)
+                   and not (np.isnan(mix[j]) and np.isnan(oracle[j]))]
+            if np.isnan(mix).any():
+                stats["nan_results_skipped"] = stats.get("nan_results_skipped", 0) + 1
+                if not bad:
+                    continue
             if bad:
                 kind = "zero" if (op == "*" and any(any(x == 0.0 for x in r) for r in parts_out)) else "value"
                 run.add(Finding("C08:%s:%s" % (kind, expr),
